@@ -1,6 +1,7 @@
 //! E3: loopback peers around the real Listener and the real gRPC / HTTP / Agones adapters.
 mod net;
 mod c01;
+mod c02;
 mod c08;
 mod c11;
 mod c12;
@@ -26,6 +27,7 @@ fn main() {
     net::raise_fd_limit();
     match cli.id.as_str() {
         "C01" => c01::run(cli),
+        "C02" => c02::run(cli),
         "C08" => c08::run(cli),
         "C11" => c11::run(cli),
         "C12" => c12::run(cli),
